@@ -22,6 +22,7 @@ PROOFS = [
     Proof('resume', 'cv.c', 'h_resume', kind='L', min_obligations=3),
 ]
 NATIVES = []
+AUX_VIOLATION = True    # no native oracle: a failing loop-rule obligation is reported (no-failing-input-found), see DESIGN §4
 TRUSTED = ['cbmc 6.11.0', 'lowering rules of specs/C03/spec.py']
 NOT_DECIDED = ['atomic release-and-wait (it IS the deferred unlock executed on the next thread\'s stack: assembly + scheduler)',
                '"wakes exactly one thread that was waiting at that moment" across vCPUs', 'timeouts racing with notifications']
